@@ -246,6 +246,27 @@ func c02Gen(r *rand.Rand, tier string) []any {
 	}
 	var out []any
 	hostNames := []string{"a.com", "b.org", "a.com:80", "A.com", "sub.a.com"}
+	// host names as an application may register them: the property speaks about "exactly that Host value"
+	regHosts := []string{"a.com", "b.org", "a.com:80", "API.Example.com", "B.ORG", "xn--bcher-kva.example", "[::1]:8080"}
+	vary := func(h string) string {
+		switch r.Intn(8) {
+		case 0:
+			return strings.ToLower(h)
+		case 1:
+			return strings.ToUpper(h)
+		case 2:
+			return h + ":80"
+		case 3:
+			return "sub." + h
+		case 4:
+			return h + "."
+		case 5:
+			return strings.TrimSuffix(h, ":80")
+		case 6:
+			return " " + h
+		}
+		return h
+	}
 	for i := 0; i < tables; i++ {
 		o := rGenOpts{escaped: r.Intn(5) == 0, maxRoute: 7}
 		routes := rGenTable(r, o)
@@ -253,7 +274,7 @@ func c02Gen(r *rand.Rand, tier string) []any {
 		if r.Intn(3) == 0 {
 			nh := 1 + r.Intn(2)
 			for k := 0; k < nh; k++ {
-				hosts = append(hosts, c02Host{Host: hostNames[r.Intn(3)], Routes: rGenTable(r, rGenOpts{maxRoute: 4})})
+				hosts = append(hosts, c02Host{Host: regHosts[r.Intn(len(regHosts))], Routes: rGenTable(r, rGenOpts{maxRoute: 4})})
 			}
 			if len(hosts) == 2 && hosts[0].Host == hosts[1].Host {
 				hosts = hosts[:1]
@@ -282,6 +303,9 @@ func c02Gen(r *rand.Rand, tier string) []any {
 					}
 				case 1:
 					q.Host = hostNames[r.Intn(len(hostNames))]
+					if r.Intn(2) == 0 {
+						q.Host = vary(hosts[r.Intn(len(hosts))].Host)
+					}
 				case 2:
 					q.Host = "other.net"
 				}
